@@ -14,7 +14,7 @@ def parseLine (d : DState) (line : String) : Except String DState :=
     match tag with
     | "H" =>
       .ok { d with hist := String.intercalate " " rest, step := 0, st := none,
-                   shadow := ⟨[], []⟩, feeTracked := true, tainted := false, startSane := false, lastMig := none, pend := {}, roles := none, carried := [] }
+                   shadow := ⟨[], []⟩, feeTracked := true, tainted := false, startSane := false, lastMig := none, pend := {}, roles := none, carried := [], expect := [] }
     | "E" =>
       match run (do
           let contract ← str
